@@ -157,15 +157,14 @@ func suiteCDecode(c *Ctx) {
 			emit(limit, m, "mutated", how)
 		}
 	}
-	// key lists longer than the number of slots: quick tier 500 keys (every fragment map grows well
-	// past its first size), thorough tier 16390 keys (more keys than slots; the model needs minutes)
+	// key lists longer than the number of slots (16390 keys: some slot gets two keys whatever the
+	// hash, every fragment map grows well past its first size, the argument count exceeds every
+	// slot-count-sized hint).  The run evaluates decode_fast (proved equal to decode), which needs
+	// seconds for such a request: MGET in both tiers, DEL and MSET at full size in the thorough tier
 	for _, cmd := range []string{"mget", "del", "mset"} {
-		nk := 500
-		if !c.Quick() {
-			nk = 16390
-		}
-		if !c.Quick() && cmd != "mget" {
-			nk = 4000 // one full-size case is enough for the thorough tier's budget
+		nk := 16390
+		if c.Quick() && cmd != "mget" {
+			nk = 500
 		}
 		args := [][]byte{[]byte(cmd)}
 		for i := 0; i < nk; i++ {
